@@ -26,13 +26,22 @@ def check(ctx):
             if r.ok:
                 raise NoVerdict("sanity: TLC did not reject Bug=%s" % b)
             bugs_caught.append(b)
-    results, trace_files = {}, []
+    results, trace_files, crashed = {}, [], []
     renv, rdir = race_env(ctx, "free")
     def drive(binary, mode, extra):
         tf = ctx.path("traces-%s.ndjson" % mode)
         out = ctx.path("result-%s.json" % mode)
-        run_driver(ctx, [binary, "-mode", mode, "-cases", cases, "-traces", tf, "-out", out] + extra, timeout=3000,
-                   env=renv if mode == "free" else None)
+        try:
+            run_driver(ctx, [binary, "-mode", mode, "-cases", cases, "-traces", tf, "-out", out] + extra, timeout=3000,
+                       env=renv if mode == "free" else None)
+        except NoVerdict as e:
+            if mode != "free":
+                raise
+            # the free-mode process died (e.g. a panic in a goroutine the package started itself cannot be recovered
+            # by the driver): what the controlled modes observed is judged first; without a violation there it is no verdict
+            crashed.append(str(e))
+            results[mode] = dict(counters={}, samples=[], drift=[], violations=[], evaluations=0, distinct_nontrivial=0, extra={})
+            return
         results[mode] = load_result(out)
         trace_files.append(tf)
     drive(drv, "replay", [])
@@ -70,6 +79,8 @@ def check(ctx):
         traces_validated_against_impl=len(recs), runs_by_mode={m: r["counters"] for m, r in results.items()},
         tlc_schedules_replayed=n_sched, l2_conformant=(drift_total == 0), drift_total=drift_total, drift=drift[:5],
         bug_configs_rejected_by_tlc=bugs_caught, exhaustive=(results["dfs"]["counters"].get("dfs_truncated", 0) == 0))
+    if crashed and not violations:
+        raise NoVerdict("the free-mode process died and the controlled modes found nothing:\n" + crashed[0][:3000])
     return conclude(ctx, violations, "model_checking", coverage, ASSUME)
 
 
